@@ -53,7 +53,12 @@ def export_item(item):
         texts.append("#%d\n" % k + "\n".join(" ".join(map(str, r)) for r in [[116]] + rows + q) + "\n0\n")
         meta["stages"] += 1
 
-    exc = stages.run_stages(sc, on_stage)
+    if src == "wide":
+        # a graph as it is (blocks with up to four successors, heavy fan-in): no stage is run
+        on_stage(0, "input", sc)
+        exc = None
+    else:
+        exc = stages.run_stages(sc, on_stage)
     meta["exc"] = exc
     return "".join(texts) if texts else None, meta
 
@@ -69,4 +74,24 @@ def items_for(tier, seed):
     for i in range(600 if tier == "quick" else 20000):
         n = rng.randrange(5, 13) if i % 2 == 0 else rng.randrange(13, 36)
         items.append(("rnd", gen_graphs.random_closed(rng, n), "basic"))
+    # "all graphs": blocks with three and four successors and many arcs into one block, every block reachable
+    # from the one block without predecessors; iterated as they are
+    for i in range(400 if tier == "quick" else 8000):
+        items.append(("wide", wide_graph(rng, rng.randrange(4, 10)), "basic"))
     return items
+
+
+def wide_graph(rng, n):
+    perm = list(range(n))
+    rng.shuffle(perm)
+    succ = [[] for _ in range(n)]
+    for i in range(1, n):
+        succ[rng.choice(perm[:i])].append(perm[i])
+    for b in range(n):
+        want = rng.choice([0, 1, 2, 3, 3, 4, 4])
+        cands = [t for t in perm[1:] if t not in succ[b]]
+        rng.shuffle(cands)
+        while len(succ[b]) < want and cands:
+            succ[b].append(cands.pop())
+        rng.shuffle(succ[b])
+    return tuple(tuple(s) for s in succ)
